@@ -60,6 +60,27 @@ def check_map(ctx, part, kind, fn):
     def scalar_samples():
         return pos[:: max(1, n // 6)]
 
+    # "scalar and array queries agree": a plain list of positions is an array query too (the maps document lists/arrays)
+    if n >= 2:
+        some = pos[:: max(1, n // 5)][:6]
+        if len(some) >= 2:
+            try:
+                as_arr = np.asarray(fn(np.asarray(some)))
+            except Exception:  # noqa  (judged below, with the array form)
+                as_arr = None
+            if as_arr is not None:
+                ctx.check()
+                try:
+                    as_list = np.asarray(fn(list(some)))
+                    same = as_arr.shape == as_list.shape and bool(np.all((as_arr == as_list) | ((as_arr != as_arr) & (as_list != as_list))))
+                    if not same:
+                        ctx.violation(f"{kind}-list-and-array-queries-disagree", f"{len(some)} positions as an array: shape {as_arr.shape}, as a list: "
+                                      f"shape {as_list.shape}", dict(w, positions=[int(x) for x in some]))
+                        return
+                except Exception as e:  # noqa
+                    ctx.violation(f"{kind}-list-and-array-queries-disagree", f"{len(some)} positions as a list: {type(e).__name__}: {e}", dict(w, positions=[int(x) for x in some]))
+                    return
+
     if kind in ("time_signature_map", "key_signature_map"):
         at = sigmaps.ts_at if kind == "time_signature_map" else sigmaps.ks_at
         vec = rows(fn(vec_arg), n)
@@ -250,7 +271,9 @@ def build_sig_part(rng):
             continue                            # a staff without any clef
         for _ in range(rng.randint(1, 3)):
             tt = 0 if rng.random() < 0.5 else rng.randint(0, end)
-            sign, line = rng.choice([("G", 2), ("F", 4), ("C", 3), ("C", 4), ("percussion", 2), ("TAB", 5)])
+            # (percussion, TAB and "none" clefs are usually written without a line: the importer stores None)
+            sign, line = rng.choice([("G", 2), ("F", 4), ("C", 3), ("C", 4), ("percussion", 2), ("TAB", 5), ("percussion", None), ("TAB", None),
+                                     ("none", None)])
             part.add(S.Clef(staff=s, sign=sign, line=line, octave_change=rng.choice([None, 0, 1, -1])), tt)
     for _ in range(rng.randint(0, 2)):
         tt = rng.randint(0, end)                # signature off the barlines
